@@ -63,6 +63,15 @@ def main(argv=None) -> int:
     seed = int(os.environ.get("VERIF_SEED", "0") or 0)
     pid = args.pid.upper()
     ctx = core.Ctx(pid, args.tier, seed)
+    # Everything the drivers and the implementation print while running (progress bars without a final newline, JAX warnings)
+    # goes to stderr; stdout carries only the verdict lines, each at the start of a line.
+    sys.stdout.flush()
+    real_stdout = os.dup(1)
+    os.dup2(2, 1)
+
+    def restore_stdout():
+        sys.stdout.flush()
+        os.dup2(real_stdout, 1)
     try:
         mod = importlib.import_module(f"lvf.props.{pid.lower()}")
         if args.replay:
@@ -89,6 +98,7 @@ def main(argv=None) -> int:
                 rep.notes.append(f"run incomplete: {str(ex)[:300]}")
                 rep.samples.append({"note": "run aborted by a guard after violations had been found"})
                 rep.states = rep.transitions = 1
+        restore_stdout()
         known = core.known_keys(pid)
         unlisted, seen_known = [], {}
         seen = set()
@@ -122,6 +132,7 @@ def main(argv=None) -> int:
               f"wall={core.time.time() - ctx.t0:.1f}s")
         return 1 if n_unlisted else 0
     except Exception:
+        restore_stdout()
         traceback.print_exc()
         print(f"MACHINERY-FAILURE property={pid} (exit 2; not a verdict)")
         return 2
